@@ -34,6 +34,9 @@ from typing import Any
 from lib import shard
 from lib.evidence import Check
 
+_OUTAGE_HINTS: list[Any] = [3, "default", 0, 2.5, -4, 10**7, 1]
+_outage_counter = [0]
+
 PID = "C21"
 ENGINE = "E1-svcgen-rig+E2-raw-drivers+E5-models+E6-evidence"
 TECHNIQUE = "reference composition model vs. observed 401s over generated authenticator trees; client 401-parser fuzz"
@@ -274,7 +277,13 @@ def _builder() -> Any:
                 e2.vgi_auth_reason = AuthReason(node["reason"])  # type: ignore[attr-defined]
                 raise e2
             if kind == "unavailable":
-                raise AuthUnavailableError("idp down", retry_after=3)
+                # the hint an integration passes through is not always a tidy positive int (a float from an upstream
+                # Retry-After, a deadline that has already elapsed): an outage stays an outage whatever the hint
+                hint = _OUTAGE_HINTS[_outage_counter[0] % len(_OUTAGE_HINTS)]
+                _outage_counter[0] += 1
+                if hint == "default":
+                    raise AuthUnavailableError("idp down")
+                raise AuthUnavailableError("idp down", retry_after=hint)  # type: ignore[arg-type]
             if kind == "custom_proxy":
                 raise AuthFailure(AuthReason(node["reason"]), detail)
             raise AssertionError(kind)
